@@ -835,6 +835,69 @@ pub fn leg_http(thorough: bool, seed: u64) -> Value {
             }
         }
     }
+    // a RESTART: a second WebServer constructed on the same data directory (allow-list absent / containing the client) serves
+    // exactly the history the first one acknowledged -- versions, latest pointer, snapshot (C07, C11, C01, C13, C17)
+    for with_list in [false, true] {
+        let dir = scratch("tcss-http6-");
+        let cl = Uuid::new_v4();
+        let allow: Option<HashSet<Uuid>> = if with_list { Some([cl, Uuid::new_v4()].into_iter().collect()) } else { None };
+        let mut acked: Vec<(Uuid, Uuid, Vec<u8>)> = vec![];
+        let mut snap: Option<(Uuid, Vec<u8>)> = None;
+        for generation in 0..3usize {
+            let web = WebServer::new(ServerConfig::default(), allow.clone(), SqliteStorage::new(dir.path()).unwrap());
+            sys.block_on(async {
+                let app = test::init_service(App::new().configure(|sc| web.config(sc))).await;
+                let tr = vec![format!("sqlite, allow-list {}: WebServer #{} constructed on the same data directory", if with_list { "containing the client" } else { "absent" }, generation + 1)];
+                // everything acknowledged by earlier generations is still served
+                for (par, ver, body) in &acked {
+                    let g = ReqSpec { method: "GET", uri: uri_gcv(*par), client_id: Some(cl.to_string().into_bytes()), content_type: None, chunks: vec![] };
+                    if let Ok(d) = call(&app, &g).await {
+                        ctx.common(&d, &g, &tr, "restart-readback");
+                        if d.status != 200 || d.one("x-version-id") != Some(ver.to_string()) || &d.body != body {
+                            ctx.v(&["C07", "C01", "C13", "C17"], format!("after a restart the acknowledged version {ver} (child of {par}) is answered {} {:?}", d.status, d.one("x-version-id")), &g, &tr);
+                            break;
+                        }
+                    }
+                }
+                if let Some((sv, sdata)) = &snap {
+                    let g = ReqSpec { method: "GET", uri: "/v1/client/snapshot".into(), client_id: Some(cl.to_string().into_bytes()), content_type: None, chunks: vec![] };
+                    if let Ok(d) = call(&app, &g).await {
+                        ctx.common(&d, &g, &tr, "restart-snapshot");
+                        if d.status != 200 || d.one("x-version-id") != Some(sv.to_string()) || &d.body != sdata {
+                            ctx.v(&["C11", "C13", "C17"], format!("after a restart the accepted snapshot at {sv} is answered {} {:?} ({} bytes)", d.status, d.one("x-version-id"), d.body.len()), &g, &tr);
+                        }
+                    }
+                }
+                // continue the chain
+                let mut parent = acked.last().map(|a| a.1).unwrap_or(NIL);
+                for k in 0..2usize {
+                    let body = format!("gen{generation}-v{k}").into_bytes();
+                    let r = ReqSpec { method: "POST", uri: uri_av(parent), client_id: Some(cl.to_string().into_bytes()), content_type: Some(HS_CT.into()), chunks: vec![body.clone()] };
+                    if let Ok(d) = call(&app, &r).await {
+                        ctx.common(&d, &r, &tr, "restart-add");
+                        match d.one("x-version-id").and_then(|t| Uuid::parse_str(&t).ok()) {
+                            Some(v) if d.status == 200 => {
+                                acked.push((parent, v, body));
+                                parent = v;
+                            }
+                            _ => {
+                                ctx.v(&["C02", "C07", "C13", "C17"], format!("after a restart AddVersion on the acknowledged latest version {parent} is answered {}", d.status), &r, &tr);
+                                break;
+                            }
+                        }
+                    }
+                }
+                let sdata = format!("snapshot-gen{generation}").into_bytes();
+                let r = ReqSpec { method: "POST", uri: uri_snap(parent), client_id: Some(cl.to_string().into_bytes()), content_type: Some(SNAP_CT.into()), chunks: vec![sdata.clone()] };
+                if let Ok(d) = call(&app, &r).await {
+                    ctx.common(&d, &r, &tr, "restart-snap");
+                    if d.status == 200 {
+                        snap = Some((parent, sdata));
+                    }
+                }
+            });
+        }
+    }
     // uploads that OVERLAP on one worker (bodies trickle in round-robin): every stored body is its own request's body,
     // no other client's bytes (C06, C09), for add-version and add-snapshot, 2..4 requests in flight
     for backend in ["mem", "sqlite"] {
@@ -965,5 +1028,5 @@ pub fn leg_http(thorough: bool, seed: u64) -> Value {
     let nv = ctx.violations.len();
     json!({"leg": "http", "requests": ctx.requests, "distinct_outcomes": ctx.outcomes, "violations": ctx.violations, "violations_total": nv, "samples": ctx.samples,
         "inconclusive_items": ctx.inconclusive.iter().take(5).collect::<Vec<_>>(),
-        "bound": format!("in process (no socket); protocol histories of {} random requests x 2 configs x 2 backends; client-id forms x 4 endpoints x 4 allow-lists (absent, empty, one, many); 15 malformed requests; body sizes 1, 4095, 4096, 4097, 65536, limit, limit+1{} in up-to-5 chunkings; never-seen clients; 2..4 uploads in flight at once on one worker (bodies chunk by chunk round-robin) x 3 shapes x 2 backends; each of the first 6 storage calls of each endpoint's request failing before / after taking effect", if thorough { 120 } else { 45 }, if thorough { ", 65535, 1 MiB, limit-1, limit+1 MiB" } else { "" })})
+        "bound": format!("in process (no socket); protocol histories of {} random requests x 2 configs x 2 backends; client-id forms x 4 endpoints x 4 allow-lists (absent, empty, one, many); 15 malformed requests; body sizes 1, 4095, 4096, 4097, 65536, limit, limit+1{} in up-to-5 chunkings; never-seen clients; 3 generations of WebServer on one SQLite directory (restart) with and without an allow-list; 2..4 uploads in flight at once on one worker (bodies chunk by chunk round-robin) x 3 shapes x 2 backends; each of the first 6 storage calls of each endpoint's request failing before / after taking effect", if thorough { 120 } else { 45 }, if thorough { ", 65535, 1 MiB, limit-1, limit+1 MiB" } else { "" })})
 }
